@@ -37,6 +37,7 @@ type Contract struct {
 	PanicsUnless []*Clause
 	Assumes      []*Clause
 	Hints        []*Clause
+	Abstracts    []*Clause
 	Invariants   map[int][]*Clause
 	LoopModifies map[int][]string
 	NoPanic      bool
@@ -83,12 +84,24 @@ type ContractSet struct {
 	Preludes map[string][]string // pkg ("" = global) -> raw SMT chunks
 	Ghosts   map[string][]GhostDecl
 	KVStores map[string]KVDecl // package path -> store declaration
+	Globals  map[string][]GlobalFact // package path -> facts about package-level variables
+	Impls    map[string]string // interface type string -> concrete type string
 	Files    []string
 }
 
+type GlobalFact struct {
+	Var  string
+	E    *Expr
+	Text string
+}
+
 type KVDecl struct {
-	Ghost string
-	KeyFn string
+	Ghost    string
+	KeyFn    string // key bytes -> abstract key
+	PrefixFn string // prefix bytes -> abstract prefix
+	InPrefix string // (prefix, key) -> Bool
+	KeyLt    string // (key, key) -> Bool : iteration order inside a prefix
+	KeySort  string
 }
 
 type GhostDecl struct {
@@ -99,14 +112,14 @@ type GhostDecl struct {
 var clauseKw = map[string]bool{
 	"func": true, "extern": true, "requires": true, "ensures": true, "nopanic": true, "modifies": true,
 	"pure": true, "inline": true, "loop": true, "let": true, "assume": true, "trusted": true, "prelude": true,
-	"lemma": true, "panics_unless": true, "props": true, "ghost": true, "end": true, "modifies_ptr": true, "kvstore": true, "hint": true, "vars": true, "call": true, "show": true, "use": true,
+	"lemma": true, "panics_unless": true, "props": true, "ghost": true, "end": true, "modifies_ptr": true, "kvstore": true, "hint": true, "vars": true, "call": true, "show": true, "use": true, "abstracts": true, "global": true, "implements": true,
 }
 
 var labelRe = regexp.MustCompile(`^@([A-Za-z0-9_\-]+)\s*`)
 var propsRe = regexp.MustCompile(`^\[([A-Z0-9, ]+)\]\s*`)
 
 func NewContractSet() *ContractSet {
-	return &ContractSet{ByKey: map[string]*Contract{}, Preludes: map[string][]string{}, Ghosts: map[string][]GhostDecl{}, KVStores: map[string]KVDecl{}}
+	return &ContractSet{ByKey: map[string]*Contract{}, Preludes: map[string][]string{}, Ghosts: map[string][]GhostDecl{}, KVStores: map[string]KVDecl{}, Globals: map[string][]GlobalFact{}, Impls: map[string]string{}}
 }
 
 // LoadFile reads one contract file.  pkg is the Go package path for files
@@ -208,11 +221,36 @@ func (cs *ContractSet) LoadFile(path, pkg string) error {
 				return fmt.Errorf("%s: ghost needs name and sort", where)
 			}
 			cs.Ghosts[pkg] = append(cs.Ghosts[pkg], GhostDecl{fields[1], strings.TrimSpace(rest[len(fields[1]):])})
+		case "global":
+			// global VarName abstracts <expr>
+			if len(fields) < 4 || fields[2] != "abstracts" {
+				return fmt.Errorf("%s: global needs 'Var abstracts expr'", where)
+			}
+			txt := strings.TrimSpace(rest[strings.Index(rest, "abstracts")+len("abstracts"):])
+			e, err := ParseExpr(txt)
+			if err != nil {
+				return fmt.Errorf("%s: %v", where, err)
+			}
+			cs.Globals[pkg] = append(cs.Globals[pkg], GlobalFact{Var: fields[1], E: e, Text: txt})
+		case "implements":
+			// implements InterfaceName concrete/type/path.Type
+			if len(fields) < 3 {
+				return fmt.Errorf("%s: implements needs interface and concrete type", where)
+			}
+			iface := fields[1]
+			if !strings.Contains(iface, "/") {
+				iface = pkg + "." + iface
+			}
+			cs.Impls[iface] = fields[2]
 		case "kvstore":
 			if len(fields) < 3 {
 				return fmt.Errorf("%s: kvstore needs ghost and key function", where)
 			}
-			cs.KVStores[pkg] = KVDecl{Ghost: fields[1], KeyFn: fields[2]}
+			kd := KVDecl{Ghost: fields[1], KeyFn: fields[2]}
+			if len(fields) >= 7 {
+				kd.PrefixFn, kd.InPrefix, kd.KeyLt, kd.KeySort = fields[3], fields[4], fields[5], fields[6]
+			}
+			cs.KVStores[pkg] = kd
 		case "lemma":
 			// lemma name [props]: expr
 			idx := strings.Index(rest, ":")
@@ -284,7 +322,7 @@ func (cs *ContractSet) LoadFile(path, pkg string) error {
 					return fmt.Errorf("%s: %v", where, err)
 				}
 				cur.Lets = append(cur.Lets, LetDef{strings.TrimSpace(rest[:idx]), e})
-			case "requires", "ensures", "panics_unless", "assume", "hint":
+			case "requires", "ensures", "panics_unless", "assume", "hint", "abstracts":
 				cl, err := parseClause(kw, rest, where)
 				if err != nil {
 					return err
@@ -302,6 +340,8 @@ func (cs *ContractSet) LoadFile(path, pkg string) error {
 					cur.PanicsUnless = append(cur.PanicsUnless, cl)
 				case "assume":
 					cur.Assumes = append(cur.Assumes, cl)
+				case "abstracts":
+					cur.Abstracts = append(cur.Abstracts, cl)
 				case "hint":
 					if cl.Label == "" {
 						cl.Label = strconv.Itoa(len(cur.Hints))
